@@ -253,3 +253,263 @@ Proof.
       * destruct (fmt_signed (ex + n - dotplace)) as [q|]; [|discriminate]. inversion F; subst x.
         eexists. split; [reflexivity|]. rewrite <- P. f_equal. rewrite ?app_nil_r, <- ?app_assoc. reflexivity.
 Qed.
+
+(* ------------------------------------------------------------------ 3. the exporter shows what the specification expects *)
+Lemma deqb_refl d : deqb d d = true.
+Proof. unfold deqb. apply Z.eqb_refl. Qed.
+Lemma deqb_sym a b : deqb a b = deqb b a.
+Proof. unfold deqb, dmin. rewrite (Z.min_comm (dexp b) (dexp a)). apply Z.eqb_sym. Qed.
+Lemma deqb_scale0 a b : deqb (dscaleb a 0) b = deqb a b.
+Proof. destruct a as [sa ca ea]. unfold deqb, dmin, at_, dscaleb, dint. unfold dexp at 1 2 3, dsign, dcoef. rewrite Z.add_0_r. reflexivity. Qed.
+Lemma dec_identical_refl d : dec_identical d d = true.
+Proof. unfold dec_identical. rewrite Bool.eqb_reflx, N.eqb_refl, Z.eqb_refl. reflexivity. Qed.
+Lemma dec_identical_eq a b : dec_identical a b = true -> a = b.
+Proof.
+  destruct a as [s1 c1 e1], b as [s2 c2 e2]. unfold dec_identical. cbn [dsign dcoef dexp]. intros H.
+  apply andb_prop in H. destruct H as [H H3]. apply andb_prop in H. destruct H as [H1 H2].
+  apply Bool.eqb_prop in H1. apply N.eqb_eq in H2. apply Z.eqb_eq in H3. subst. reflexivity.
+Qed.
+
+(* every member of the (generated) Prefix enumeration is exported to the SIPrefix of the same power of ten *)
+Definition prefix_ok (e : string * Z) : bool :=
+  match export_prefix (snd e) with
+  | Ok n => match si_exponent n with Some q => q =? snd e | None => false end
+  | Error _ => false
+  end.
+Lemma prefix_table_ok : forallb prefix_ok prefix_table = true.
+Proof. vm_compute. reflexivity. Qed.
+
+Lemma export_prefix_exact q : is_prefix q = true -> exists n, export_prefix q = Ok n /\ si_exponent n = Some q.
+Proof.
+  unfold is_prefix, prefix_values. intros H. apply existsb_exists in H. destruct H as [x [Hin Hx]].
+  apply Z.eqb_eq in Hx. subst x. apply in_map_iff in Hin. destruct Hin as [[nm v] [Hv Hin]]. cbn [snd] in Hv. subst v.
+  pose proof prefix_table_ok as T. rewrite forallb_forall in T. specialize (T _ Hin). unfold prefix_ok in T. cbn [snd] in T.
+  destruct (export_prefix q) as [n|]; [|discriminate]. exists n. split; [reflexivity|].
+  destruct (si_exponent n) as [q'|]; [|discriminate]. apply Z.eqb_eq in T. subst. reflexivity.
+Qed.
+
+Lemma unit_prefix_0 : unit_prefix = Ok 0.
+Proof. vm_compute. reflexivity. Qed.
+Lemma is_prefix_0 : is_prefix 0 = true.
+Proof. vm_compute. reflexivity. Qed.
+
+Lemma str_of_dec_total d : exists s, str_of_dec d = Ok s /\ numeric s = Some d.
+Proof. destruct (dec_roundtrip d) as [s [D R]]. exists s. unfold str_of_dec. rewrite D. split; [reflexivity|exact R]. Qed.
+
+(* export_prefixed: total on members of Prefix, same prefix, number of the same value; the string branch keeps the Decimal *)
+Lemma export_prefixed_shows p : pwf p = true ->
+  exists pv, export_prefixed p = Ok pv /\ shows (XPrefixed (number p) (prefix p)) pv = true.
+Proof.
+  intros W. unfold export_prefixed. destruct (export_prefix_exact (prefix p) W) as [n [E S]]. rewrite E. cbn [bind].
+  destruct (is_integral (number p) && int64_ok (dtrunc (number p))) eqn:C.
+  - eexists. split; [reflexivity|]. cbn [shows num_dec]. rewrite S. apply andb_prop in C. destruct C as [C _].
+    unfold is_integral in C. rewrite deqb_sym, C, Z.eqb_refl. reflexivity.
+  - destruct (str_of_dec_total (number p)) as [s [D R]]. rewrite D. cbn [bind]. eexists. split; [reflexivity|].
+    cbn [shows num_dec]. rewrite R, S, deqb_refl, Z.eqb_refl. reflexivity.
+Qed.
+
+Lemma export_prefixed_big p : pwf p = true -> is_integral (number p) = true -> int64_ok (dtrunc (number p)) = false ->
+  exists s pre, export_prefixed p = Ok (PVPrefixed (NString s) pre) /\ numeric s = Some (number p) /\ si_exponent pre = Some (prefix p).
+Proof.
+  intros W I B. unfold export_prefixed. destruct (export_prefix_exact (prefix p) W) as [n [E S]]. rewrite E. cbn [bind].
+  rewrite I, B. cbn [andb]. destruct (str_of_dec_total (number p)) as [s [D R]]. rewrite D. cbn [bind].
+  exists s, n. repeat split; assumption.
+Qed.
+
+Definition value_wf (v : value) : bool := match v with VPrefixed p => pwf p | _ => true end.
+Definition is_none (v : value) : bool := match v with VNone => true | _ => false end.
+
+Lemma shows_value_of_prefixed0 d pv : shows (XPrefixed d 0) pv = true -> shows (XValue d) pv = true.
+Proof.
+  destruct pv as [| | | |n pre]; cbn [shows]; try discriminate.
+  destruct (num_dec n) as [d'|]; [|discriminate]. destruct (si_exponent pre) as [q'|]; [|discriminate].
+  intros H. apply andb_prop in H. destruct H as [H1 H2]. apply Z.eqb_eq in H2. subst q'. rewrite deqb_scale0. exact H1.
+Qed.
+
+Definition expected_raw (v : value) : expect :=
+  match v with
+  | VNone => XOmit | VStr s => XLiteral s | VEnum (Some s) => XLiteral s | VEnum None => XFree | VLit s => XLiteral s
+  | VPrefixed p => XPrefixed (number p) (prefix p) | VDecimal d => XDecText d | VInt z => XInt z | VFloat b _ => XDouble b
+  | VOther => XFree
+  end.
+Lemma expected_4 v : expected 4 v = expected_raw v.
+Proof. reflexivity. Qed.
+Definition expected_sc (opt : bool) (v : value) : expect :=
+  match v with
+  | VNone => if opt then XOmit else XFree
+  | VStr s => match numeric s with Some d => XValue d | None => XLiteral s end
+  | VInt z => XValue (of_int z 0)
+  | VDecimal d => XValue d
+  | VFloat b r => if float_finite b then match numeric r with Some d => XValue d | None => XFree end else XFree
+  | VPrefixed p => XPrefixed (number p) (prefix p)
+  | VLit s => XLiteral s
+  | VEnum _ | VOther => XFree
+  end.
+Lemma expected_0 v : expected 0 v = expected_sc false v.
+Proof. reflexivity. Qed.
+Lemma expected_1 v : expected 1 v = expected_sc true v.
+Proof. reflexivity. Qed.
+
+(* export_param_value on a value stored as it is (kinds 2, 3, 4; dict entries) *)
+Lemma export_value_shows v : value_wf v = true -> is_free (expected 4 v) = false -> unrepresentable (expected 4 v) = false ->
+  exists o, export_param_value v = Ok o /\
+            match o with None => expected 4 v = XOmit | Some pv => shows (expected 4 v) pv = true end.
+Proof.
+  rewrite expected_4. intros W F U. destruct v as [|s|[s|]|s|p|d|z|b r|]; cbn [expected_raw] in *; try discriminate.
+  - exists None. split; reflexivity.
+  - eexists. split; [reflexivity|]. cbn [shows]. apply str_eqb_refl.
+  - eexists. split; [reflexivity|]. cbn [shows]. apply str_eqb_refl.
+  - eexists. split; [reflexivity|]. cbn [shows]. apply str_eqb_refl.
+  - cbn [value_wf] in W. destruct (export_prefixed_shows p W) as [pv [E S]]. exists (Some pv).
+    cbn [export_param_value]. rewrite E. split; [reflexivity|exact S].
+  - destruct (str_of_dec_total d) as [s [D R]]. exists (Some (PVLiteral s)). cbn [export_param_value]. rewrite D.
+    split; [reflexivity|]. cbn [shows]. rewrite R. apply dec_identical_refl.
+  - cbn [unrepresentable] in U. apply negb_false_iff in U. exists (Some (PVInt64 z)). cbn [export_param_value]. rewrite U.
+    split; [reflexivity|]. cbn [shows]. rewrite Z.eqb_refl, U. reflexivity.
+  - eexists. split; [reflexivity|]. cbn [shows]. apply Z.eqb_refl.
+Qed.
+
+(* a value that the format cannot hold is refused, never altered *)
+Lemma export_value_refuses v : unrepresentable (expected 4 v) = true -> exists e, export_param_value v = Error e.
+Proof.
+  rewrite expected_4. destruct v as [|s|[s|]|s|p|d|z|b r|]; cbn [expected_raw unrepresentable]; try discriminate.
+  intros U. apply negb_true_iff in U. cbn [export_param_value]. rewrite U. eexists. reflexivity.
+Qed.
+
+Lemma export_none_iff v o : export_param_value v = Ok o -> (o = None <-> v = VNone).
+Proof.
+  destruct v as [|s|[s|]|s|p|d|z|b r|]; cbn [export_param_value]; intros H; try (inversion H; split; discriminate).
+  - inversion H. split; reflexivity.
+  - destruct (export_prefixed p); cbn [bind] in H; inversion H. split; discriminate.
+  - destruct (str_of_dec d); cbn [bind] in H; inversion H. split; discriminate.
+  - destruct (int64_ok z); inversion H. split; discriminate.
+Qed.
+
+(* to_scalar: what it returns *)
+Lemma to_scalar_spec v : value_wf v = true -> is_free (expected 0 v) = false ->
+  exists x, to_scalar v = Ok x /\ value_wf x = true /\
+    match expected 0 v with
+    | XValue d => x = VPrefixed (mkP d 0)
+    | XPrefixed d q => x = v
+    | XLiteral s => x = VLit s
+    | _ => False
+    end.
+Proof.
+  rewrite expected_0. intros W F. destruct v as [|s|e|s|p|d|z|b r|]; cbn [expected_sc is_free] in *; try discriminate.
+  - unfold to_scalar, numeric, unit_pfx in *. destruct (parse_numeric s) as [d|].
+    + rewrite unit_prefix_0. eexists. split; [reflexivity|]. split; [exact is_prefix_0|reflexivity].
+    + eexists. split; [reflexivity|]. split; reflexivity.
+  - eexists. split; [reflexivity|]. split; reflexivity.
+  - exists (VPrefixed p). split; [reflexivity|]. split; [exact W|reflexivity].
+  - unfold to_scalar, unit_pfx. rewrite unit_prefix_0. eexists. split; [reflexivity|]. split; [exact is_prefix_0|reflexivity].
+  - unfold to_scalar, unit_pfx. rewrite unit_prefix_0. eexists. split; [reflexivity|]. split; [exact is_prefix_0|reflexivity].
+  - unfold to_scalar, numeric, unit_pfx in *. destruct (float_finite b); [|discriminate].
+    destruct (parse_numeric r) as [d|]; [|discriminate].
+    rewrite unit_prefix_0. eexists. split; [reflexivity|]. split; [exact is_prefix_0|reflexivity].
+Qed.
+
+(* construction + export of one parameter of any kind: accepted, and shown as the specification expects *)
+Lemma export_unit d : exists pv, export_param_value (VPrefixed (mkP d 0)) = Ok (Some pv) /\ shows (XValue d) pv = true.
+Proof.
+  destruct (export_prefixed_shows (mkP d 0) is_prefix_0) as [pv [E S]]. exists pv. cbn [export_param_value]. rewrite E.
+  split; [reflexivity|]. apply shows_value_of_prefixed0. exact S.
+Qed.
+
+Definition store_sc (opt : bool) (v : value) : result value :=
+  match v with VNone => if opt then Ok VNone else to_scalar v | _ => to_scalar v end.
+
+Lemma scalar_preserved (opt : bool) v : value_wf v = true -> is_free (expected_sc opt v) = false ->
+  exists x o, store_sc opt v = Ok x /\ export_param_value x = Ok o /\
+              match o with None => expected_sc opt v = XOmit | Some pv => shows (expected_sc opt v) pv = true end.
+Proof.
+  intros W F. destruct v as [|s|e|s|p|d|z|b r|]; cbn [expected_sc store_sc is_free] in *; try discriminate.
+  - destruct opt; [|discriminate]. exists VNone, None. repeat split.
+  - unfold to_scalar, numeric, unit_pfx in *. destruct (parse_numeric s) as [d|].
+    + rewrite unit_prefix_0. cbn [bind]. destruct (export_unit d) as [pv [E S]]. exists (VPrefixed (mkP d 0)), (Some pv). repeat split; assumption.
+    + exists (VLit s), (Some (PVLiteral s)). repeat split. cbn [shows]. apply str_eqb_refl.
+  - exists (VLit s), (Some (PVLiteral s)). repeat split. cbn [shows]. apply str_eqb_refl.
+  - cbn [value_wf] in W. destruct (export_prefixed_shows p W) as [pv [E S]]. exists (VPrefixed p), (Some pv).
+    cbn [to_scalar export_param_value]. rewrite E. repeat split. exact S.
+  - unfold to_scalar, unit_pfx. rewrite unit_prefix_0. cbn [bind]. destruct (export_unit d) as [pv [E S]].
+    exists (VPrefixed (mkP d 0)), (Some pv). repeat split; assumption.
+  - unfold to_scalar, unit_pfx. rewrite unit_prefix_0. cbn [bind]. destruct (export_unit (of_int z 0)) as [pv [E S]].
+    exists (VPrefixed (mkP (of_int z 0) 0)), (Some pv). repeat split; assumption.
+  - unfold to_scalar, numeric, unit_pfx in *. destruct (float_finite b); [|discriminate].
+    destruct (parse_numeric r) as [d|]; [|discriminate]. rewrite unit_prefix_0. cbn [bind].
+    destruct (export_unit d) as [pv [E S]]. exists (VPrefixed (mkP d 0)), (Some pv). repeat split; assumption.
+Qed.
+
+Lemma store_0 v : store 0 v = store_sc false v.
+Proof. destruct v; reflexivity. Qed.
+Lemma store_1 v : store 1 v = store_sc true v.
+Proof. destruct v; reflexivity. Qed.
+
+Lemma param_preserved kind v : value_wf v = true -> is_free (expected kind v) = false -> unrepresentable (expected kind v) = false ->
+  kind <> 2 -> kind <> 3 ->
+  exists x o, store kind v = Ok x /\ export_param_value x = Ok o /\
+              match o with None => expected kind v = XOmit | Some pv => shows (expected kind v) pv = true end.
+Proof.
+  intros W F U K2 K3. destruct (Z.eq_dec kind 0) as [->|K0]; [|destruct (Z.eq_dec kind 1) as [->|K1]].
+  - rewrite store_0, expected_0 in *. apply scalar_preserved; assumption.
+  - rewrite store_1, expected_1 in *. apply scalar_preserved; assumption.
+  - assert (expected kind v = expected_raw v) as EK.
+    { unfold expected, scalar_kind. apply Z.eqb_neq in K0. apply Z.eqb_neq in K1. rewrite K0, K1. reflexivity. }
+    assert (store kind v = Ok v) as SK.
+    { unfold store. apply Z.eqb_neq in K0. apply Z.eqb_neq in K1. apply Z.eqb_neq in K2. apply Z.eqb_neq in K3.
+      rewrite K0, K1, K2, K3. reflexivity. }
+    rewrite EK in *. rewrite <- expected_4 in *. destruct (export_value_shows v W F U) as [o [E R]]. exists v, o. repeat split; assumption.
+Qed.
+
+(* the parameter loop: None-valued entries are dropped, every other entry is exported under its own name, in order *)
+Lemma export_params_spec ps : forall r, export_params ps = Ok r ->
+  Forall2 (fun kv kp => fst kv = fst kp /\ export_param_value (snd kv) = Ok (Some (snd kp)))
+          (filter (fun kv => negb (is_none (snd kv))) ps) r.
+Proof.
+  induction ps as [|[k v] ps IH]; intros r H; cbn [export_params] in H.
+  - inversion H. constructor.
+  - destruct (export_param_value v) as [o|] eqn:E; cbn [bind] in H; [|discriminate].
+    destruct (export_params ps) as [rest|] eqn:ER; cbn [bind] in H; [|discriminate].
+    pose proof (export_none_iff v o E) as NI. cbn [filter snd]. destruct o as [pv|].
+    + inversion H; subst r. assert (is_none v = false) as ->.
+      { destruct v; try reflexivity. exfalso. destruct NI as [_ NI]. specialize (NI eq_refl). discriminate. }
+      cbn [negb]. constructor; [split; [reflexivity|exact E]|apply IH; reflexivity].
+    + inversion H; subst r. destruct NI as [NI _]. rewrite (NI eq_refl). cbn [is_none negb]. apply IH. reflexivity.
+Qed.
+
+(* ------------------------------------------------------------------ tables: ideal primitives and the pulse-source renaming *)
+Fixpoint nodup_str (l : list string) : bool :=
+  match l with [] => true | x :: r => negb (existsb (String.eqb x) r) && nodup_str r end.
+
+Definition exported_names (pclass : string) (fields : list string) : list string :=
+  if String.eqb pclass c13_pulse_class then map fst c13_pulse_rename else fields.
+
+(* one row of the primitive registry *)
+Definition prim_row_ok (e : string * string * string * list (string * Z * (Z * Z * string))) : bool :=
+  let '(name, ty, pc, fs) := e in
+  let fields := map (fun f => fst (fst f)) fs in
+  if String.eqb ty "IDEAL" then
+    match sassoc name c13_prim_map, sassoc name ideal_doc with
+    | Some v, Some v' =>
+        String.eqb v v' &&
+        match sassoc v c13_vlsir_prims with
+        | Some doc =>
+            let out := exported_names pc fields in
+            (* every exported name is a documented parameter of the VLSIR element, no two fields collide *)
+            forallb (fun n => existsb (String.eqb n) doc) out && nodup_str out &&
+            (* no field is lost, and each field goes to the documented name *)
+            (if String.eqb pc c13_pulse_class then
+               forallb (fun f => match sassoc f pulse_doc with
+                                 | Some n => existsb (fun na => String.eqb (fst na) n && String.eqb (snd na) f) c13_pulse_rename
+                                 | None => false end) fields
+               && (length c13_pulse_rename =? length fields)%nat
+             else true)
+        | None => false
+        end
+    | _, _ => false
+    end
+  else if String.eqb ty "PHYSICAL" then
+    match sassoc name c13_prim_map, sassoc name ideal_doc with None, None => nodup_str fields | _, _ => false end
+  else false.
+
+Lemma prim_table_ok : forallb prim_row_ok c13_prims = true.
+Proof. vm_compute. reflexivity. Qed.
